@@ -73,6 +73,17 @@ CLAIMED = {
         "technique": "machine-checked proof in Rocq (Coq 8.16) of multimap laws + witnesses over the converter model; direct oracle and differential correspondence for the quantified statement",
         "design": "DESIGN.md §7 C07",
     },
+    "C12": {
+        "text": "PARTIAL. Rocq theorems for the lexical core of enable_service_file over the std::path model: C12_inside (normalising any relative path yields k times '..' followed by plain "
+                "names), C12_accepted_alias_is_plain (an Alias word passing the repaired filter normalises to plain names only -- never absolute, never climbing), C12_resolves (a link n "
+                "components below the output directory with target (../)^(n-1) file resolves to <output dir>/file, for all depths and positions), and C12_pinned_refuted. That the real function creates "
+                "exactly the requested links and creates, replaces or deletes nothing outside the output directory is decided by the direct oracle: the real enable_service_file run in scratch trees "
+                "with decoy files outside (absolute, climbing, '/', '..' aliases, WantedBy/RequiredBy words with '/', templates with and without DefaultInstance), before/after snapshots, readlink resolution, "
+                "and correspondence with the Links model.",
+        "note": "Trusted: Coq kernel; Spec/CleanRef.v; Model/Path.v std::path semantics; the file-system effects themselves (mkdir -p, unlink, symlink) are observed, not modelled.",
+        "technique": "machine-checked proof in Rocq (Coq 8.16) of the path-normalisation and link-resolution lemmas + direct file-system oracle and model correspondence",
+        "design": "DESIGN.md §7 C12",
+    },
     "C15": {
         "text": "Rocq theorems over the unit model: C15_list (list look-up = history after its last empty assignment, with C15_effective_is_suffix characterising that suffix "
                 "declaratively), C15_last (single-valued look-up = last effective assignment, none after an empty last one), C15_kv (name=value look-up = last value per name among the "
